@@ -265,7 +265,7 @@ pub fn decorate(xml: &str, shape: &str, flags: u8, decl_on_root: bool, r: &mut R
         if flags & D_COMMENT != 0 && r.below(4) == 0 {
             out.push_str(["<!--t_a-->", "<?pi t_b?>", "<!-- <t_a>x</t_a> -->", "<!---->"][r.below(4)]);
         }
-        if flags & D_UNKNOWN != 0 && shape != "OvlValue" && r.below(4) == 0 {
+        if flags & D_UNKNOWN != 0 && shape != "OvlValue" && shape != "OvlMap" && r.below(4) == 0 {
             if flags & D_NS != 0 && r.bool() {
                 out.push_str(UNKNOWN_BLOBS_NS[r.below(UNKNOWN_BLOBS_NS.len())]);
             } else {
